@@ -206,7 +206,7 @@ Proof.
 Qed.
 
 Lemma I4_rebound X k st out : Inv (I4 X k) st out -> Inv (I4 X (mu X st (queue st))) st out.
-Proof. intros [H S]. split; [|exact S]. inv4 H. unfold I4. repeat split; auto. Qed.
+Proof. intros [H S]. split; [|exact S]. inv4 H. apply I4_intro; auto; intros A; apply (Hd A). Qed.
 
 (* an allowed data arrival is recorded or queued: the measure grows by one *)
 Lemma data_step pol X k st out d st' o :
@@ -273,4 +273,214 @@ Proof.
   pose proof (no_loss_gen pol X evs 0 (init c) [] st out (I4_init X c Hi) HR H) as L.
   unfold mu in L. simpl in L. unfold count_data in L at 2. simpl in L.
   unfold recorded. fold (rec_of (is_client X) (messages (fl st))). lia.
+Qed.
+
+(* ================= T5: nothing is sent to a connection after the layer closed (its write side) ===== *)
+Definition is_shut (Y : side) (c : cmd) : bool :=
+  match c with HalfClose s | CloseConnection s => side_eqb s Y | _ => false end.
+Definition shut_in (Y : side) (out : list cmd) : bool := existsb (is_shut Y) out.
+(* true iff some SendData goes to a side that is already shut (sc/ss: shut before [out] starts) *)
+Fixpoint late_from (sc ss : bool) (out : list cmd) : bool :=
+  match out with
+  | [] => false
+  | c :: r => (match c with SendData Client _ => sc | SendData Server _ => ss | _ => false end)
+              || late_from (sc || is_shut Client c) (ss || is_shut Server c) r
+  end.
+Definition late_send (out : list cmd) : bool := late_from false false out.
+
+Lemma late_app : forall a b sc ss,
+  late_from sc ss (a ++ b) = late_from sc ss a || late_from (sc || shut_in Client a) (ss || shut_in Server a) b.
+Proof.
+  induction a as [|c a IH]; intros b sc ss; simpl.
+  - rewrite !orb_false_r. reflexivity.
+  - rewrite IH, !orb_assoc. reflexivity.
+Qed.
+
+Definition from_side (X : side) (e : event) : bool :=
+  match e with EData f _ => side_eqb f X | EInject fc _ => side_eqb (side_of fc) X | _ => false end.
+Definition count_from (X : side) (q : list event) : nat := length (filter (from_side X) q).
+(* injections are made only on behalf of a peer that has not closed yet *)
+Definition inject_live st (e : event) : bool :=
+  match e with EInject fc _ => can_read (conn_of st (side_of fc)) | _ => true end.
+Fixpoint injects_live (pol : policy) st (evs : list event) : bool :=
+  match evs with
+  | [] => true
+  | e :: r => inject_live st e && injects_live pol (fst (arrive pol st e)) r
+  end.
+
+(* nothing more will be sent to Y *)
+Definition Q (Y : side) st (q : list event) : Prop :=
+  ph st <> PStart /\ can_read (conn_of st (other Y)) = false /\ count_from (other Y) q = 0 /\ wait st <> WMsgHook Y.
+Definition I5 st (q : list event) (out : list cmd) : Prop :=
+  wait_ph_ok st /\ crashed st = false /\ wait st <> WErrorHook /\ forallb payload_only q = true /\
+  (ph st = PStart -> waiting st = true \/ q = []) /\
+  late_send out = false /\
+  (shut_in Client out = true -> Q Client st q) /\ (shut_in Server out = true -> Q Server st q).
+Definition G5 st e : Prop := allowed true st e = true /\ inject_live st e = true.
+
+Lemma count_from_app X a b : count_from X (a ++ b) = count_from X a + count_from X b.
+Proof. unfold count_from. rewrite filter_app, app_length. reflexivity. Qed.
+
+Definition is_send (Y : side) (c : cmd) : bool :=
+  match c with SendData s _ => side_eqb s Y | _ => false end.
+Definition has_send (Y : side) (o : list cmd) : bool := existsb (is_send Y) o.
+
+Lemma late_from_flags : forall o sc ss,
+  late_from sc ss o = late_from false false o || sc && has_send Client o || ss && has_send Server o.
+Proof.
+  induction o as [|c o IH]; intros sc ss; simpl.
+  - rewrite !andb_false_r. reflexivity.
+  - rewrite (IH (sc || is_shut Client c) (ss || is_shut Server c)).
+    rewrite (IH (is_shut Client c) (is_shut Server c)).
+    destruct (late_from false false o), (has_send Client o), (has_send Server o), sc, ss;
+      destruct c as [| | | | |[] d|[]|[]]; reflexivity.
+Qed.
+
+Lemma I5_extend st q out st' q' o :
+  I5 st q out ->
+  wait_ph_ok st' -> crashed st' = false -> wait st' <> WErrorHook -> forallb payload_only q' = true ->
+  (ph st' = PStart -> waiting st' = true \/ q' = []) ->
+  late_send o = false ->
+  (forall Y, Q Y st q -> has_send Y o = false /\ Q Y st' q') ->
+  (forall Y, shut_in Y o = true -> Q Y st' q') ->
+  I5 st' q' (out ++ o).
+Proof.
+  intros (_ & _ & _ & _ & _ & Hl & HC & HS) A1 A2 A3 A4 A5 Ho Hpres Hnew.
+  unfold I5. repeat (split; [assumption|]).
+  split.
+  - unfold late_send in *. rewrite late_app, Hl, late_from_flags, Ho. simpl.
+    destruct (shut_in Client out) eqn:EC; destruct (shut_in Server out) eqn:ES; simpl;
+      try (destruct (Hpres Client (HC eq_refl)) as [-> _]); try (destruct (Hpres Server (HS eq_refl)) as [-> _]);
+      reflexivity.
+  - split; intros H; unfold shut_in in *; rewrite existsb_app in H; apply orb_true_iff in H as [H|H].
+    + apply (Hpres Client (HC H)).
+    + apply (Hnew Client H).
+    + apply (Hpres Server (HS H)).
+    + apply (Hnew Server H).
+Qed.
+
+Ltac solveQ :=
+  unfold Q, count_from, has_send, shut_in, late_send, wait_ph_ok in *; simpl in *;
+  repeat match goal with
+  | |- forall _, _ => intro
+  end;
+  repeat match goal with
+  | Y : side |- _ => destruct Y
+  | b : bool |- _ => destruct b
+  end; simpl in *; intuition (try congruence; try discriminate; try lia).
+
+Ltac inv5 H := destruct H as (Hp & Hc & Hne & Hq & Hn & Hl & HQC & HQS).
+
+Lemma I5_handle st e q out st' o :
+  I5 st (e :: q) out -> waiting st = false -> crashed st = false -> handle st e = (st', o) -> I5 st' q (out ++ o).
+Proof.
+  intros H Hw _ Hh. pose proof H as H0. inv5 H.
+  unfold waiting in Hw. destruct (wait st) eqn:Ew; try discriminate. clear Hw.
+  simpl in Hq. apply andb_true_iff in Hq as [He Hq].
+  unfold handle in Hh. destruct (ph st) eqn:Eph.
+  - destruct (Hn eq_refl) as [A|A]; [unfold waiting in A; rewrite Ew in A|]; discriminate.
+  - destruct e as [|f d|f|fc d|a err]; try discriminate; simpl in Hh;
+      unfold relay_data in Hh; destruct (has_flow st); inversion Hh; subst; clear Hh;
+      (apply (I5_extend _ _ _ _ _ _ H0); clear H0 HQC HQS Hl; [..|solveQ|solveQ];
+       unfold wait_ph_ok; simpl; rewrite ?Ew; auto; try discriminate; try (intros A; congruence);
+       try (destruct f; reflexivity); try (destruct fc; reflexivity)).
+  - destruct e as [|f d|f|fc d|a err]; try discriminate; simpl in Hh; inversion Hh; subst; clear Hh;
+      (apply (I5_extend _ _ _ _ _ _ H0); clear H0 HQC HQS Hl; [..|solveQ|solveQ];
+       auto; try (intros A; congruence)).
+Qed.
+
+Lemma I5_queue st q out q' : I5 st q out -> I5 (set_queue st q') q out.
+Proof. intros H; exact H. Qed.
+
+Lemma I5_resume st q out a a0 err st' o :
+  G5 st (EReply a0 err) -> I5 st q out -> waiting st = true -> crashed st = false ->
+  resume st a err = (st', o) -> I5 st' q (out ++ o).
+Proof.
+  intros [HG _] H _ _ Hr. pose proof H as H0. inv5 H. unfold allowed in HG.
+  unfold wait_ph_ok in Hp. unfold resume in Hr.
+  destruct (wait st) eqn:Ew.
+  - inversion Hr; subst. rewrite app_nil_r. exact H0.
+  - unfold_layer. simpl in Hr.
+    split_run Hr; inversion Hr; subst; clear Hr;
+      (apply (I5_extend _ _ _ _ _ _ H0); clear H0 HQC HQS Hl; [..|solveQ|solveQ];
+       unfold wait_ph_ok; simpl; auto; try discriminate; try (intros A; congruence); try (left; reflexivity)).
+  - destruct err; [discriminate|].
+    unfold_layer. inversion Hr; subst; clear Hr.
+    apply (I5_extend _ _ _ _ _ _ H0); clear H0 HQC HQS Hl; [..|solveQ|solveQ];
+      unfold wait_ph_ok; simpl; auto; try discriminate; try (intros A; congruence).
+  - congruence.
+  - unfold_layer. inversion Hr; subst; clear Hr.
+    apply (I5_extend _ _ _ _ _ _ H0); clear H0 HQC HQS Hl; [..|solveQ|solveQ];
+      unfold wait_ph_ok; simpl; auto; try discriminate; try (intros A; congruence);
+      try (destruct to; reflexivity).
+  - unfold_layer. inversion Hr; subst; clear Hr.
+    apply (I5_extend _ _ _ _ _ _ H0); clear H0 HQC HQS Hl; [..|solveQ|solveQ];
+      unfold wait_ph_ok; simpl; auto; try discriminate; try (intros A; congruence).
+Qed.
+
+Lemma I5_enqueue st q out e :
+  G5 st e -> not_reply e -> waiting st = true -> crashed st = false ->
+  I5 st q out -> I5 (env_arrive st e) (q ++ [e]) out.
+Proof.
+  intros [HG HL] He Hw _ H. pose proof H as H0. inv5 H. unfold allowed in HG. unfold inject_live in HL.
+  rewrite <- (app_nil_r out).
+  destruct e as [|f d|f|fc d|a err]; try contradiction; simpl env_arrive.
+  - unfold started, waiting in *. destruct (ph st), (wait st); simpl in *; discriminate.
+  - apply andb_true_iff in HG as [_ Hr].
+    apply (I5_extend _ _ _ _ _ _ H0); clear H0 HQC HQS Hl; auto.
+    + rewrite forallb_app, Hq. reflexivity.
+    + intros Y (Q1 & Q2 & Q3 & Q4). split; [reflexivity|]. unfold Q. rewrite count_from_app, Q3.
+      repeat split; auto. unfold count_from. simpl.
+      destruct (side_eqb f (other Y)) eqn:E; [|reflexivity].
+      destruct f, Y; simpl in *; congruence.
+    + intros Y A. discriminate.
+  - apply andb_true_iff in HG as [_ Hcalm]. simpl in Hcalm. rewrite Hw in Hcalm. discriminate.
+  - apply (I5_extend _ _ _ _ _ _ H0); clear H0 HQC HQS Hl; auto.
+    + rewrite forallb_app, Hq. reflexivity.
+    + intros Y (Q1 & Q2 & Q3 & Q4). split; [reflexivity|]. unfold Q. rewrite count_from_app, Q3.
+      repeat split; auto. unfold count_from. simpl.
+      destruct (side_eqb (side_of fc) (other Y)) eqn:E; [|reflexivity].
+      destruct fc, Y; simpl in *; congruence.
+    + intros Y A. discriminate.
+Qed.
+
+Lemma I5_direct st e out st' o :
+  G5 st e -> not_reply e -> I5 st [] out -> waiting st = false -> crashed st = false ->
+  handle (env_arrive st e) e = (st', o) -> I5 st' [] (out ++ o).
+Proof.
+  intros [HG HL] He H Hw _ Hh. pose proof H as H0. inv5 H. unfold allowed in HG. unfold inject_live in HL.
+  unfold waiting in Hw. destruct (wait st) eqn:Ew; try discriminate. clear Hw.
+  destruct e as [|f d|f|fc d|a err]; try contradiction; simpl env_arrive in Hh.
+  - (* EStart *)
+    unfold started in HG. rewrite Ew in HG. destruct (ph st) eqn:Eph; try discriminate.
+    unfold handle in Hh. rewrite Eph in Hh. unfold_layer.
+    split_run Hh; inversion Hh; subst; clear Hh;
+      (apply (I5_extend _ _ _ _ _ _ H0); clear H0 HQC HQS Hl; [..|solveQ|solveQ];
+       unfold wait_ph_ok; simpl; auto; try discriminate; try (intros A; congruence)).
+  - (* EData *)
+    apply andb_true_iff in HG as [Hs Hr]. unfold started in Hs. rewrite Ew in Hs.
+    unfold handle in Hh. destruct (ph st) eqn:Eph; try discriminate.
+    + unfold relay_data in Hh. destruct (has_flow st); inversion Hh; subst; clear Hh;
+        (apply (I5_extend _ _ _ _ _ _ H0); clear H0 HQC HQS Hl; [..|solveQ|solveQ];
+         unfold wait_ph_ok; simpl; rewrite ?Ew; auto; try discriminate; try (intros A; congruence);
+         try (destruct f; reflexivity)).
+    + inversion Hh; subst; clear Hh. rewrite app_nil_r. exact H0.
+  - (* EClosed *)
+    apply andb_true_iff in HG as [HG _]. apply andb_true_iff in HG as [Hs Hr].
+    unfold started in Hs. rewrite Ew in Hs.
+    unfold handle in Hh.
+    unfold relay_closed, close_if_open, end_flow, yield, has_flow, env_cmd, set_conn in Hh.
+    destruct (ph st) eqn:Eph; try discriminate;
+    destruct (pr (cf st)) eqn:Epr, f; simpl in Hh; rewrite ?Eph, ?Epr in Hh; simpl in Hh;
+      split_run Hh; inversion Hh; subst; clear Hh;
+      (apply (I5_extend _ _ _ _ _ _ H0); clear H0 HQC HQS Hl; [..|solveQ|solveQ];
+       unfold wait_ph_ok; simpl; rewrite ?Ew; auto; try discriminate; try (intros A; congruence)).
+  - (* EInject *)
+    unfold started in HG. rewrite Ew in HG.
+    unfold handle in Hh. destruct (ph st) eqn:Eph; try discriminate.
+    + unfold relay_data in Hh. destruct (has_flow st); inversion Hh; subst; clear Hh;
+        (apply (I5_extend _ _ _ _ _ _ H0); clear H0 HQC HQS Hl; [..|solveQ|solveQ];
+         unfold wait_ph_ok; simpl; rewrite ?Ew; auto; try discriminate; try (intros A; congruence);
+         try (destruct fc; reflexivity)).
+    + inversion Hh; subst; clear Hh. rewrite app_nil_r. exact H0.
 Qed.
